@@ -30,7 +30,7 @@ import importlib.util as _ilu, os as _os, copy as _copy, json as _json
 _sp = _ilu.spec_from_file_location('spec_C02_for_C01', _os.path.join(_os.path.dirname(_os.path.abspath(__file__)), 'C02.py')); _c02 = _ilu.module_from_spec(_sp); _sp.loader.exec_module(_c02)
 _leaf_queries = queries
 META['functions'] = META['functions'] + ['driver family: Template::Render = TemplateCore::parse + render*/getValue/evaluate (Template.hpp) with the real Value<char>, on exact-size template buffers']
-META['bounds'] += (' || driver family: every member of the C02 template family and (quick: every 6th of four templates, thorough: every) truncation point of it, in an exact-size heap buffer, rendered twice against real value trees with symbolic leaf strings: '
+META['bounds'] += (' || driver family: every member of the C02 template family and (quick: every 6th of four templates, thorough: every) truncation point of it (the three members added last are rendered whole only), in an exact-size heap buffer, rendered twice against real value trees with symbolic leaf strings: '
                    'every access inside the buffer / owned memory, no trap, termination within the unwinding bounds; mis-nesting family: every sequence of one opener inside a loop met by one closer (quick, 15) / '
                    'every pair of the 11 structural tokens and every triple that starts with <loop> or <if> (thorough, 363) of {math:1  {svar:p,  {if case="1" true="  <loop value="v">  <if case="1">  </loop>  </if>  <else>  }  {var:v}  "')
 META['outside'] = META['outside'].replace('the scanner DRIVER TemplateCore::parse and the renderer over symbolic template text: out of reach', 'the scanner driver and the renderer over SYMBOLIC template text: out of reach (covered only on the listed concrete template family and its truncations)')
